@@ -22,14 +22,15 @@ Section Stack.
   Variable interval : Z.
   Variable clock : Z -> bool.
   Variable mlimit : option Z.
+  Variable giveup : list prop -> store -> bool.
 
   Notation tk := (tick interval clock mlimit).
   Notation lhead := (loop_head interval clock mlimit).
-  Notation wstp := (while_step pick m interval clock mlimit).
-  Notation ewhile := (engine_while pick m interval clock mlimit).
-  Notation enext := (engine_next pick m interval clock mlimit).
-  Notation erun := (engine_run pick m interval clock mlimit).
-  Notation efirst := (engine_first pick m interval clock mlimit).
+  Notation wstp := (while_step pick m interval clock mlimit giveup).
+  Notation ewhile := (engine_while pick m interval clock mlimit giveup).
+  Notation enext := (engine_next pick m interval clock mlimit giveup).
+  Notation erun := (engine_run pick m interval clock mlimit giveup).
+  Notation efirst := (engine_first pick m interval clock mlimit giveup).
 
   (* ======================================================================================== *)
   (* 1. unfolding and fuel monotonicity of the executable machine *)
@@ -120,13 +121,64 @@ Section Stack.
   Qed.
 
   (* ======================================================================================== *)
+  (* 1b. a descent passes the limit test (repair limits_deep): an evaluation of the `while` test
+         that leaves the stack one frame deeper has counted an iteration and, on a multiple of the
+         interval, consulted the clock and the memory estimate with the DEEPER stack *)
+
+  Lemma tick_counts : forall d l l',
+    (tk d l = inl l' \/ exists w, tk d l = inr (w, l')) -> iters l' = iters l + 1.
+  Proof.
+    intros d l l'. unfold tick. destruct (_ =? 0).
+    - destruct (clock _); [|destruct (mem_exceeded _ _ _)].
+      + intros [H|[w H]]; [discriminate|]. injection H as _ <-. reflexivity.
+      + intros [H|[w H]]; [discriminate|]. injection H as _ <-. reflexivity.
+      + intros [H|[w H]]; [|discriminate]. injection H as <-. reflexivity.
+    - intros [H|[w H]]; [|discriminate]. injection H as <-. reflexivity.
+  Qed.
+
+  Lemma wstp_push : forall e,
+    match wstp e with
+    | WCont e' => length (stack e') = S (length (stack e)) -> tk (length (stack e')) (lst e) = inl (lst e')
+    | WLimit w e' => length (stack e') = S (length (stack e)) -> tk (length (stack e')) (lst e) = inr (w, lst e')
+    | _ => True
+    end.
+  Proof.
+    intros [c st b l]. unfold while_step. cbn [cur stack EngineStack.best lst].
+    destruct (biter_next c) as [[[[ps1 s] bid]|] c'].
+    - destruct (giveup _ s); [cbn; lia|].
+      destruct (propagate pick _ _ s _) as [| |s']; [cbn; lia|exact I|].
+      destruct (all_fixed s'); [exact I|].
+      unfold loop_head. cbn [cur stack EngineStack.best lst length].
+      destruct (tk (S (length st)) l) as [l0|[w l0]] eqn:Et; cbn; intros _; exact Et.
+    - destruct st as [|parent st]; [exact I|].
+      unfold loop_head. cbn [cur stack EngineStack.best lst length].
+      destruct (tk (length st) l) as [l0|[w l0]]; cbn; lia.
+  Qed.
+
+  Theorem push_passes_limit_test : forall e e', wstp e = WCont e' ->
+    length (stack e') = S (length (stack e)) ->
+    tk (length (stack e')) (lst e) = inl (lst e') /\ iters (lst e') = iters (lst e) + 1.
+  Proof.
+    intros e e' W Hl. pose proof (wstp_push e) as H. rewrite W in H. specialize (H Hl).
+    split; [exact H|]. eapply tick_counts. left. exact H.
+  Qed.
+
+  Theorem push_stopped_by_limit : forall e w e', wstp e = WLimit w e' ->
+    length (stack e') = S (length (stack e)) ->
+    tk (length (stack e')) (lst e) = inr (w, lst e') /\ iters (lst e') = iters (lst e) + 1.
+  Proof.
+    intros e w e' W Hl. pose proof (wstp_push e) as H. rewrite W in H. specialize (H Hl).
+    split; [exact H|]. eapply tick_counts. right. exists w. exact H.
+  Qed.
+
+  (* ======================================================================================== *)
   (* 2. big-step semantics of the machine (with the number of `while` evaluations) and the
         simulation of the recursion *)
 
   Section Sim.
     Variable resume : bool.
-    Notation dl := (dfs_lim pick m interval clock mlimit resume).
-    Notation clim := (child_lim pick m interval clock mlimit resume).
+    Notation dl := (dfs_lim pick m interval clock mlimit giveup resume).
+    Notation clim := (child_lim pick m interval clock mlimit giveup resume).
     Notation rtk := (retick interval clock mlimit).
 
     (* from a configuration at the `while` test, the machine runs (the consumer calling again
@@ -246,15 +298,30 @@ Section Stack.
     (* the body of the while loop on a pending child is the recursion's `child` *)
     Lemma wstp_child : forall ps s pv md left st best l,
       wstp (mke (Some (mkbs ps s pv md left)) st best l) =
+      if giveup (cps m ps best (bp_of pv md left)) s
+      then WLimit LTimeout (mke (it_after ps s pv md left) st best l) else
       match cprop pick m ps s best (bp_of pv md left) with
       | PFuel => WFuel
       | PFail => WCont (mke (it_after ps s pv md left) st best l)
       | PDone s' =>
         if all_fixed s' then WYield s' (mke (it_after ps s pv md left) st (on_solution m best s') l)
-        else WCont (mke (split_on_unassigned (cps m ps best (bp_of pv md left)) s')
-                        (it_after ps s pv md left :: st) best l)
+        else
+          match lhead (mke (split_on_unassigned (cps m ps best (bp_of pv md left)) s')
+                           (it_after ps s pv md left :: st) best l) with
+          | inl e' => WCont e'
+          | inr (w, e') => WLimit w e'
+          end
       end.
     Proof. intros ps s pv md left st best l. destruct left; reflexivity. Qed.
+
+    (* the limit test after a push sees one more frame *)
+    Lemma lhead_push : forall c it st best l,
+      lhead (mke c (it :: st) best l) =
+      match tk (S (length st)) l with
+      | inl l' => inl (mke c (it :: st) best l')
+      | inr (w, l') => inr (w, mke c (it :: st) best l')
+      end.
+    Proof. reflexivity. Qed.
 
     Lemma child_sim : forall B recl ps s pv md left best l st,
       (forall ps' s' best' l' st', length st' = S (length st) ->
@@ -268,6 +335,9 @@ Section Stack.
       set (e := mke (Some (mkbs ps s pv md left)) st best l) in *.
       set (it' := it_after ps s pv md left) in *.
       set (bp := bp_of pv md left) in *.
+      destruct (giveup (cps m ps best bp) s).
+      { (* the propagation of the child is given up: next() returns None, nothing pushed *)
+        cbn. exists 1%nat. eexists. split; [lia|]. split; [apply F_lim; exact W|]. cbn. auto. }
       destruct (cprop pick m ps s best bp) as [| |s'].
       - cbn. split; [reflexivity|]. exists 1%nat. split; [lia|].
         eapply R_step; [exact W|apply R_refl].
@@ -277,8 +347,13 @@ Section Stack.
           * apply retick_yield; [exact Er|exact W|lia].
           * cbn. exists 1%nat. eexists. split; [lia|].
             split; [eapply F_ycons; [exact Er|exact W]|]. auto.
-        + specialize (Hrec (cps m ps best bp) s' best l (it' :: st) eq_refl).
-          destruct (recl (S (length st)) (cps m ps best bp) s' best l) as [|sols b l' why d];
+        + rewrite lhead_push in W.
+          destruct (tk (S (length st)) l) as [l0|[w l0]].
+          2:{ (* a limit fires on the descent: the machine returns None with the child pushed *)
+              cbn. exists 1%nat. eexists. split; [lia|].
+              split; [apply F_lim; exact W|]. cbn. auto. }
+          specialize (Hrec (cps m ps best bp) s' best l0 (it' :: st) eq_refl).
+          destruct (recl (S (length st)) (cps m ps best bp) s' best l0) as [|sols b l' why d];
             [exact I|].
           destruct why as [|w|].
           * cbn in Hrec. destruct Hrec as [_ [k [Hk Hrec]]]. apply (retick_pop _ (S k)); [|lia].
@@ -383,7 +458,7 @@ Section Stack.
   (* ======================================================================================== *)
   (* 4. the refinement theorems *)
 
-  Notation dlim := (dfs_lim pick m interval clock mlimit).
+  Notation dlim := (dfs_lim pick m interval clock mlimit giveup).
 
   (* the first call of next() passes the head of the outer loop (`l1` = the counters after it),
      then the machine does what the recursion does; one call per solution plus the last one, and
@@ -463,11 +538,12 @@ Section Stack.
 
   (* the whole entry point: root propagation + engine, against Limits.search_lim *)
   Theorem engine_search_refines_search_lim : forall resume ps s r,
-    search_lim pick m interval clock mlimit resume ps s = r -> r <> inl LFuel ->
+    search_lim pick m interval clock mlimit giveup resume ps s = r -> r <> inl LFuel ->
     exists calls0 fuel0, forall calls fuel, (calls0 <= calls)%nat -> (fuel0 <= fuel)%nat ->
-      engine_search pick m interval clock mlimit resume calls fuel ps s = r.
+      engine_search pick m interval clock mlimit giveup resume calls fuel ps s = r.
   Proof.
     intros resume ps s r H Hnf. unfold search_lim in H. unfold engine_search.
+    destruct (giveup ps s); [exists 0%nat, 0%nat; intros; exact H|].
     destruct (propagate pick _ ps s _) as [| |s'].
     - exists 0%nat, 0%nat. intros; exact H.
     - congruence.
@@ -500,18 +576,18 @@ Qed.
 
 Lemma dfs_lim_unlimited : forall pick m interval fuel depth ps s best l all ball,
   dfs pick m fuel ps s best = SOk all ball ->
-  exists l', dfs_lim pick m interval never None true fuel depth ps s best l
+  exists l', dfs_lim pick m interval never None nogiveup true fuel depth ps s best l
              = LStop all ball l' SExhausted depth.
 Proof.
   intros pick m interval fuel depth ps s best l all ball H.
-  pose proof (dfs_sim pick m interval never None true fuel depth ps s best l) as Hs.
-  pose proof (dfs_ok pick m interval never None true fuel depth ps s best l) as Hok.
+  pose proof (dfs_sim pick m interval never None nogiveup true fuel depth ps s best l) as Hs.
+  pose proof (dfs_ok pick m interval never None nogiveup true fuel depth ps s best l) as Hok.
   rewrite H in Hs.
-  destruct (dfs_lim pick m interval never None true fuel depth ps s best l) as [|sols b l' why d] eqn:E.
+  destruct (dfs_lim pick m interval never None nogiveup true fuel depth ps s best l) as [|sols b l' why d] eqn:E.
   - cbn in Hs. discriminate.
   - destruct why as [|w|].
     + cbn in Hs. injection Hs as <- <-. exists l'.
-      pose proof (node_sim pick m interval never None true fuel ps s best l (repeat None depth)) as Hn.
+      pose proof (node_sim pick m interval never None nogiveup true fuel ps s best l (repeat None depth)) as Hn.
       rewrite repeat_length, E in Hn. cbn in Hn. destruct Hn as [-> _].
       rewrite repeat_length. reflexivity.
     + exfalso. exact (ok_never_nolimit _ _ _ _ _ _ _ Hok).
@@ -521,15 +597,15 @@ Qed.
 Theorem engine_run_unlimited : forall pick m interval fuel ps s best l all ball calls fuel',
   dfs pick m fuel ps s best = SOk all ball ->
   (S (length all) <= calls)%nat -> (engine_fuel fuel <= fuel')%nat ->
-  exists e', engine_run pick m interval never None calls fuel' (engine_start ps s best l)
+  exists e', engine_run pick m interval never None nogiveup calls fuel' (engine_start ps s best l)
              = RStop all e' SExhausted /\ EngineStack.best e' = ball /\ stack e' = [].
 Proof.
   intros pick m interval fuel ps s best l all ball calls fuel' H Hc Hf.
   destruct (tick_never_inl interval 0%nat l) as [l1 Ht].
   destruct (dfs_lim_unlimited pick m interval fuel 0%nat ps s best l1 all ball H) as [l' E].
-  pose proof (engine_run_refines_dfs_lim pick m interval never None fuel ps s best l l1 _ _ _ _ _
+  pose proof (engine_run_refines_dfs_lim pick m interval never None nogiveup fuel ps s best l l1 _ _ _ _ _
                 calls fuel' Ht E Hc Hf) as Hk.
-  destruct (engine_run pick m interval never None calls fuel' (engine_start ps s best l))
+  destruct (engine_run pick m interval never None nogiveup calls fuel' (engine_start ps s best l))
     as [|sols e' why]; [discriminate|].
   cbn in Hk. injection Hk as -> Hb _ -> Hd. exists e'. split; [reflexivity|]. split; [exact Hb|].
   destruct (stack e'); [reflexivity|discriminate].
@@ -566,9 +642,9 @@ Proof.
   unfold engine_enumerate, engine_search in *.
   destruct (propagate pick _ ps s _) as [| |s']; try reflexivity.
   destruct (all_fixed s'); [reflexivity|].
-  destruct (engine_run pick m 1 never None calls fuel (engine_init ps s')) as [|sols e' why] eqn:Er;
+  destruct (engine_run pick m 1 never None nogiveup calls fuel (engine_init ps s')) as [|sols e' why] eqn:Er;
     [cbn in He; congruence|].
-  rewrite (erun_mono pick m 1 never None calls fuel _ _ Er ltac:(discriminate)
+  rewrite (erun_mono pick m 1 never None nogiveup calls fuel _ _ Er ltac:(discriminate)
              (Nat.max c0 calls) (Nat.max f0 fuel) ltac:(lia) ltac:(lia)).
   reflexivity.
 Qed.
